@@ -50,6 +50,8 @@ func init() {
 					lc := x.Data["lc"].(*liveClient)
 					x.Put("crashSeq", seq.Add(1))
 					x.Put("crashAt", x.Now())
+					// it dies the way a Go program does: a panic report on stderr (with its empty line), then exit
+					io.WriteString(lc.r.stderr, "panic: runtime error: invalid memory address or nil pointer dereference\n[signal SIGSEGV: segmentation violation code=0x1 addr=0x0 pc=0x4b1e2f]\n\ngoroutine 1 [running]:\nmain.main()\n\t/src/plugin/main.go:42 +0x1f\nexit status 2\n")
 					lc.r.exit()
 				},
 			})
